@@ -5,6 +5,88 @@ import numpy as np
 import molli as ml
 from molli.math import rotation_matrix_from_vectors, rotation_matrix_from_axis
 
+def bounded(seed):
+    """bounded stand-in (real code, CPython): dihedral / rotate_dihedral / rotation_matrix_from_vectors on EXACTLY degenerate geometries
+    (coplanar anti and syn chains, perpendicular chains, exactly (anti)parallel and axis-aligned vectors) and on random ones.
+    The inverse trigonometric functions and the degenerate branches are outside what the VC units decide."""
+    rng_ = np.random.default_rng(seed)
+    vio, n = [], 0
+
+    def add(sig, what):
+        if sig not in [v["signature"] for v in vio]:
+            vio.append({"signature": sig, "what": what})
+
+    def mk(coords):
+        m = ml.Molecule()
+        for i, c in enumerate(coords):
+            m.add_atom(ml.Atom("C", label=f"C{i}"), c, 0.0)
+        for i in range(len(coords) - 1):
+            m.connect(i, i + 1)
+        return m
+    special = {
+        "coplanar anti (zig-zag in the xy plane)": [[-1, 1, 0], [0, 0, 0], [1.5, 0, 0], [2.5, -1, 0]],
+        "coplanar syn": [[-1, 1, 0], [0, 0, 0], [1.5, 0, 0], [2.5, 1, 0]],
+        "perpendicular (+90)": [[-1, 1, 0], [0, 0, 0], [1.5, 0, 0], [2.5, 0, 1]],
+        "perpendicular (-90)": [[-1, 1, 0], [0, 0, 0], [1.5, 0, 0], [2.5, 0, -1]],
+        "coplanar anti along z": [[0, 1, -1], [0, 0, 0], [0, 0, 1.5], [0, -1, 2.5]],
+    }
+    expect = {"coplanar anti (zig-zag in the xy plane)": math.pi, "coplanar syn": 0.0, "coplanar anti along z": math.pi}
+    geos = [(k, np.array(v, dtype=float)) for k, v in special.items()] + [("random", rng_.normal(size=(4, 3)) * 1.5 + np.arange(4)[:, None] * [1.4, 0, 0]) for _ in range(40)]
+    for name, xyz in geos:
+        for extra in (0, 1):
+            try:
+                m = mk(list(xyz) + ([xyz[3] + [0.3, 0.9, 0.4]] if extra else []))
+                a = list(m.atoms)
+                d0 = m.dihedral(a[0], a[1], a[2], a[3])
+                if name in expect and abs(abs(wrap(d0 - expect[name]))) > 1e-7:
+                    add("dihedral/special", f"dihedral of a {name} chain is {d0:.6f}, expected {expect[name]:.6f} (mod 2 pi)")
+                for target in (0.0, math.pi / 3, -math.pi / 2, math.pi, 2.5, -2.5):
+                    mm = ml.Molecule(m)
+                    b = list(mm.atoms)
+                    before = mm.coords.copy()
+                    mm.rotate_dihedral((b[0], b[1], b[2], b[3]), target)
+                    n += 1
+                    got = mm.dihedral(b[0], b[1], b[2], b[3])
+                    if abs(wrap(got - target)) > 1e-6:
+                        add("rotate_dihedral/target", f"rotate_dihedral to {target:.4f} on a {name} chain ends at {got:.6f}")
+                    moved = [i for i in range(mm.n_atoms) if not np.allclose(mm.coords[i], before[i], atol=1e-9)]
+                    if not (set(moved) <= {0, 1} or set(moved) <= set(range(2, mm.n_atoms))) and not (set(moved) <= {0} or set(moved) <= set(range(3, mm.n_atoms))):
+                        add("rotate_dihedral/sides", f"rotate_dihedral on a {name} chain moved atoms {moved} (both sides of the central bond)")
+                    D0 = np.linalg.norm(before[:, None] - before[None], axis=-1)
+                    D1 = np.linalg.norm(mm.coords[:, None] - mm.coords[None], axis=-1)
+                    same_side = [(i, j) for i in range(mm.n_atoms) for j in range(mm.n_atoms) if (i <= 1) == (j <= 1)]
+                    if any(abs(D0[i, j] - D1[i, j]) > 1e-8 for i, j in same_side):
+                        add("rotate_dihedral/rigid", f"rotate_dihedral on a {name} chain changed a distance inside one side")
+            except BaseException as ex:
+                add("dihedral/raised", f"dihedral / rotate_dihedral on a {name} chain raised {type(ex).__name__}: {str(ex)[:60]}")
+    vecs = [np.array(v, dtype=float) for v in ([1, 0, 0], [0, 1, 0], [0, 0, 1], [0, 0, -1], [-1, 0, 0], [1, 2, 3], [0.6, 0.7, 0.8], [-0.6, -0.7, -0.8], [-1, -2, -3], [1, 1, 0], [-1, -1, 0])]
+    vecs += [rng_.normal(size=3) for _ in range(20)]
+    for v1 in vecs:
+        perp = np.cross(v1, [0.3, -0.5, 0.8])
+        perp = perp / np.linalg.norm(perp) * np.linalg.norm(v1)
+        for v2 in vecs + [-v1, v1 * 2.5, -v1 * 0.5, -v1 + 5e-5 * perp, -v1 + 3e-7 * perp, v1 + 5e-5 * perp]:
+            for tol in (1e-8, 1e-6):
+                try:
+                    R = rotation_matrix_from_vectors(v1, v2, tol=tol)
+                    n += 1
+                    u1, u2 = v1 / np.linalg.norm(v1), v2 / np.linalg.norm(v2)
+                    if not np.allclose(R @ R.T, np.eye(3), atol=1e-8) or abs(np.linalg.det(R) - 1) > 1e-8:
+                        add("rotation_matrix_from_vectors/proper", f"rotation_matrix_from_vectors({v1.tolist()}, {v2.tolist()}) is not a proper rotation")
+                    elif not np.allclose(u1 @ R, u2, atol=1e-6):
+                        add("rotation_matrix_from_vectors/maps", f"rotation_matrix_from_vectors({np.round(v1, 3).tolist()}, {np.round(v2, 3).tolist()}, tol={tol}) maps v1 to {np.round(u1 @ R, 6).tolist()}, not to the direction of v2 {np.round(u2, 6).tolist()}")
+                except BaseException as ex:
+                    if np.linalg.norm(v1) > 0 and np.linalg.norm(v2) > 0:
+                        add("rotation_matrix_from_vectors/raised", f"rotation_matrix_from_vectors raised {type(ex).__name__} on non-zero vectors")
+    print(json.dumps({"explored": {"rotate_dihedral / rotation calls": n, "special geometries": len(special)}, "violations": vio}))
+    sys.exit(0)
+
+
+def wrap(x):
+    return (x + math.pi) % (2 * math.pi) - math.pi
+
+
+if len(sys.argv) > 1 and sys.argv[1] == "--bounded":
+    bounded(int(sys.argv[2]) if len(sys.argv) > 2 else 0)
 doc = json.load(open(sys.argv[1])) if len(sys.argv) > 1 and sys.argv[1] != "--search" else {"obligation": sys.argv[2]}
 label = doc.get("obligation", "")
 rng = np.random.default_rng(12345)
